@@ -94,6 +94,13 @@ inductive IntTy where
   | u8 | u16 | u32 | u64 | u128 | usize | i8 | i16 | i32 | i64 | i128 | isize
   deriving Repr, DecidableEq, Inhabited
 
+def IntTy.name : IntTy → List Char
+  | .u8 => "u8".toList | .u16 => "u16".toList | .u32 => "u32".toList | .u64 => "u64".toList | .u128 => "u128".toList
+  | .usize => "usize".toList | .i8 => "i8".toList | .i16 => "i16".toList | .i32 => "i32".toList | .i64 => "i64".toList
+  | .i128 => "i128".toList | .isize => "isize".toList
+
+def allIntTys : List IntTy := [.u8, .u16, .u32, .u64, .u128, .usize, .i8, .i16, .i32, .i64, .i128, .isize]
+
 /-- One item of a `#[repr(...)]` list: an integer type or anything else (`C`, `align(4)`, ...). -/
 inductive Hint where
   | int (t : IntTy)
